@@ -37,6 +37,14 @@ Struct(s) ==
               <<ANamed("a", K_a, AList(<<AInt(1), AInt(2)>>)),
                 ANamed("b", K_b, ADict(<<K(K_k)>>, <<AList(<<AInt(3)>>)>>)),
                 ANamed("c", K_c, ACall(AVar("set"), <<AList(<<AInt(1), AInt(2)>>)>>))>>))>>
+    ELSE IF s = "record" THEN      \* a record type with a list field and a shared default, an enum, a range
+        <<SAssign([k |-> "var", n |-> "RT", ncp |-> <<82, 84>>, line |-> 0],
+                  ACallN(AVar("record"), <<>>, <<ANamed("l", <<108>>, AVar("list")),
+                                                 ANamed("d", <<100>>, ACall(AVar("field"), <<AVar("dict"), ADict(<<K(K_k)>>, <<AInt(1)>>)>>))>>)),
+          SAssign([k |-> "var", n |-> "ET", ncp |-> <<69, 84>>, line |-> 0], ACall(AVar("enum"), <<K(K_a), K(K_b)>>)),
+          SAssign(TVar("sh"), AList(<<AInt(1), AInt(2)>>)),
+          SAssign(TVar("x"), AList(<<ACallN(AVar("RT"), <<>>, <<ANamed("l", <<108>>, AVar("sh"))>>),
+                                     ACall(AVar("ET"), <<K(K_b)>>), ACall(AVar("range"), <<AInt(3)>>), AVar("sh")>>))>>
     ELSE IF s = "set" THEN         \* a set inside a list, and aliased
         <<SAssign(TVar("sh"), ACall(AVar("set"), <<AList(<<AInt(1), AInt(2)>>)>>)),
           SAssign(TVar("x"), AList(<<AVar("sh"), ATuple(<<AVar("sh")>>)>>))>>
@@ -79,6 +87,8 @@ Paths(s) ==
     ELSE IF s = "factory" THEN {PP(AIndex(XV, AInt(0)), "list")}
     ELSE IF s = "struct" THEN {PP(ADot(XV, "a", K_a), "list"), PP(ADot(XV, "b", K_b), "dict"),
                                PP(AIndex(ADot(XV, "b", K_b), K(K_k)), "list"), PP(ADot(XV, "c", K_c), "set")}
+    ELSE IF s = "record" THEN {PP(XV, "list"), PP(ADot(AIndex(XV, AInt(0)), "l", <<108>>), "list"),
+                               PP(ADot(AIndex(XV, AInt(0)), "d", <<100>>), "dict"), PP(AVar("sh"), "list")}
     ELSE IF s = "set" THEN {PP(AIndex(XV, AInt(0)), "set"), PP(AIndex(AIndex(XV, AInt(1)), AInt(0)), "set"), PP(AVar("sh"), "set")}
     ELSE {PP(XV, "list"), PP(AIndex(XV, AInt(0)), "list"), PP(AVar("cap"), "list")}
 
@@ -126,6 +136,9 @@ Probe(s) ==
     \o (IF s = "aliased" THEN <<SEmit(ABin("==", AIndex(XV, AInt(0)), AVar("sh")))>> ELSE <<>>)
     \o (IF s = "set" THEN <<SEmit(ABin("==", AIndex(XV, AInt(0)), AVar("sh")))>> ELSE <<>>)
     \o (IF s = "struct" THEN <<SEmit(ABin("==", XV, XV)), SEmit(ADot(XV, "a", K_a))>> ELSE <<>>)
+    \o (IF s = "record" THEN <<SEmit(ADot(AIndex(XV, AInt(1)), "index", <<105, 110, 100, 101, 120>>)),
+                                SEmit(ACall(AVar("list"), <<AIndex(XV, AInt(2))>>)),
+                                SEmit(ABin("==", ADot(AIndex(XV, AInt(0)), "l", <<108>>), AVar("sh")))>> ELSE <<>>)
     \o (IF s = "factory" THEN <<SEmit(ACall(AVar("rdr"), <<>>))>> ELSE <<>>)
 ReadOps(T, kind) ==
     IF kind = "set" THEN
@@ -158,13 +171,13 @@ ChunkB(c) == IF c.s = "factory" THEN FactoryB \o Probe(c.s) ELSE <<>>
 Importer(c) == <<Probe(c.s), MutStmts(c.p.e, c.p.kind, c.mut), Probe(c.s), ReadOps(c.p.e, c.p.kind)>>
                  \o (IF c.s \in {"closure", "factory"} THEN <<CallFnStmt, Probe(c.s)>> ELSE <<>>)
 Mods(c) == IF c.two THEN <<Importer(c), Importer(c)>> ELSE <<Importer(c)>>
-Loaded(c) == IF c.s = "aliased" \/ c.s = "set" THEN <<"x", "sh">> ELSE IF c.s = "closure" THEN <<"x", "cap", "fn">>
+Loaded(c) == IF c.s = "aliased" \/ c.s = "set" \/ c.s = "record" THEN <<"x", "sh">> ELSE IF c.s = "closure" THEN <<"x", "cap", "fn">>
              ELSE IF c.s = "factory" THEN <<"x", "fn", "rdr">> ELSE <<"x">>
 (* loaded in the reverse of A's declaration order, so that no name has the same slot in B as in A:
    a closure that resolved A's globals against B's slot table would read something else *)
 LoadedMid(c) == <<"make_rd", "make_app", "data">>
 
-Structures == {"nested", "aliased", "cyclic", "dict", "tuple", "closure", "factory", "struct", "set"}
+Structures == {"nested", "aliased", "cyclic", "dict", "tuple", "closure", "factory", "struct", "set", "record"}
 Cases == {[s |-> s, p |-> p, mut |-> m, two |-> t] :
              s \in Structures,
              p \in UNION {Paths(s2) : s2 \in Structures},
